@@ -29,6 +29,7 @@ type Driver struct {
 	inCallback int32
 	Overlaps   int32 // times two output callbacks were active at once
 	Emitted    int64
+	CallbackDelay time.Duration // how long the "terminal write" takes (0: nothing)
 	width      int64
 	height     int64
 }
@@ -38,6 +39,9 @@ func NewDriver(width, height int) *Driver {
 	d.S = ui.NewState(width, height, func(frame string) {
 		if atomic.AddInt32(&d.inCallback, 1) > 1 {
 			atomic.AddInt32(&d.Overlaps, 1)
+		}
+		if d.CallbackDelay > 0 {
+			time.Sleep(d.CallbackDelay)
 		}
 		d.mu.Lock()
 		d.frames = append(d.frames, Frame{frame, int(atomic.LoadInt64(&d.width)), int(atomic.LoadInt64(&d.height))})
